@@ -45,7 +45,7 @@ func runStreamWith(doc []byte, rs *ReaderScn, sharedIP *commonmark.InlineParser)
 	obs := &streamObs{Refs: make(commonmark.ReferenceMap)}
 	rd := newSimReader(doc, rs, &seq)
 	obs.Reader = rd
-	p := commonmark.NewBlockParser(rd)
+	p := commonmark.NewBlockParser(rd.asReader())
 	for {
 		obs.NextCalls++
 		b, err := p.NextBlock()
